@@ -205,8 +205,8 @@ impl Property for C09 {
     }
     fn cases(&self, tier: Tier) -> u64 {
         match tier {
-            Tier::Quick => 30000,
-            Tier::Thorough => 16 * 100000,
+            Tier::Quick => 240000,
+            Tier::Thorough => 240000 * 100,
         }
     }
     fn required_classes(&self) -> Vec<&'static str> {
